@@ -11,7 +11,8 @@ Tr == JsonDeserialize(IOEnv.TRACE_FILE)
 VARIABLES tid, l, drift, dev
 CONSTANTS Dev_C07_F16Float8Act,    \* known finding: float16 models with float8 activations
           Dev_C07_Int8PackCrash,   \* known finding: bfloat16 x int8 route (torch._weight_int8pack_mm) when K % 16 # 0
-          Dev_C07_StridedView      \* known finding: non-contiguous activations on the integer / int8-pack routes
+          Dev_C07_StridedView,     \* (fixed) non-contiguous activations on the integer / int8-pack routes
+          Dev_C07_IntMMK1          \* known finding: torch._int_mm with in_features = 1 and more than one output feature
 
 Ev == Tr[tid][l]
 Is(a) == l <= Len(Tr[tid]) /\ Ev.act = a
@@ -59,8 +60,9 @@ DevSig(d, e) ==
                                       /\ (c.K % 16 # 0 \/ c.waxis = "per-tensor" \/ c.N = 1)
     [] d = "Dev_C07_StridedView" -> ~e.contiguous /\ c.brank = 3 /\ e.outcome = "RuntimeError"
                                     /\ ((c.act = "qint8" /\ c.wq = "qint8") \/ (c.dtype = "bfloat16" /\ c.act = "float" /\ c.wq = "qint8"))
+    [] d = "Dev_C07_IntMMK1" -> c.act = "qint8" /\ c.wq = "qint8" /\ c.K = 1 /\ c.N > 1 /\ e.outcome = "value"
     [] OTHER -> FALSE
-DevOn == (IF Dev_C07_F16Float8Act THEN {"Dev_C07_F16Float8Act"} ELSE {}) \cup (IF Dev_C07_Int8PackCrash THEN {"Dev_C07_Int8PackCrash"} ELSE {})
+DevOn == (IF Dev_C07_IntMMK1 THEN {"Dev_C07_IntMMK1"} ELSE {}) \cup (IF Dev_C07_F16Float8Act THEN {"Dev_C07_F16Float8Act"} ELSE {}) \cup (IF Dev_C07_Int8PackCrash THEN {"Dev_C07_Int8PackCrash"} ELSE {})
          \cup (IF Dev_C07_StridedView THEN {"Dev_C07_StridedView"} ELSE {})
 
 RouteDrift(e) == IF e.kind = "linear" /\ e.outcome = "value" /\ e.route_seen # "unknown" /\ e.route_seen # Route(e.cfg) THEN 1 ELSE 0
